@@ -14,9 +14,15 @@ LEGAL.update({48 + i: str(i) for i in range(10)})
 CODES = sorted(LEGAL)
 
 
+def oracle_idchar(c):
+    return LEGAL.get(c)
+
+
 def cases(ctx):
     rng = ctx.rng
     nr = ctx.n(2, 12)
+    for c in range(64):
+        yield dict(op="spec.idchar %d" % c, real=("h:props.C10.oracle_idchar", [c]), tag="spec-tie", trivial=True)
 
     def adsb_id(codes, tc=None, ca=None, df=None):
         tc = tc if tc is not None else rng.randrange(1, 5)
